@@ -362,7 +362,7 @@ func txMessage(rng *rand.Rand, ops []txOp, total, body, style int) []txOp {
 	}
 }
 
-var hdrTypes = []int{1, 2, 3, 15, 7, 14}
+var hdrTypes = []int{1, 2, 3, 15, 7, 14, 6, 13, 16, 19}
 
 func txMain(args []string) error {
 	fs := flag.NewFlagSet("tx", flag.ExitOnError)
@@ -481,6 +481,20 @@ func txMain(args []string) error {
 				if err := r.run(ops); err != nil {
 					return err
 				}
+			}
+		}
+	}
+	if *directed != "" {
+		// every packet header type a message can be sent with: messages of several packets, also exact multiples
+		for t := 1; t <= 23; t++ {
+			body := 248 + rng.Intn(300)
+			ops := []txOp{{Op: "Size", Body: body}, {Op: "Type", N: t}}
+			ops = txMessage(rng, ops, 2*body+1+rng.Intn(body-1), body, rng.Intn(4))
+			ops = txMessage(rng, ops, 2*body, body, rng.Intn(4))
+			ops = txMessage(rng, ops, 1+rng.Intn(body-1), body, 0)
+			r.chanN = 0
+			if err := r.run(ops); err != nil {
+				return err
 			}
 		}
 	}
